@@ -168,7 +168,12 @@ func (e *Engine) runOnce(t *testing.T, tape *simrt.Tape, keep bool) (*simrt.Sim,
 	runtime.GC()
 	runtime.GC()
 	info := &RunInfo{}
-	s := simrt.Run(t, tape, e.simConfig(keep), func(s *simrt.Sim) { e.Main(s, info) })
+	SetTransport(NetOptions{})
+	resetNetConns()
+	s := simrt.Run(t, tape, e.simConfig(keep), func(s *simrt.Sim) {
+		defer CloseNetConns() // also when Main panics: the peers go away
+		e.Main(s, info)
+	})
 	return s, info
 }
 
@@ -307,6 +312,16 @@ func WorkerMain(t *testing.T) {
 		return
 	}
 
+	if ts := os.Getenv("VERIF_TRACE_SEED"); ts != "" {
+		// debugging aid: print the event log of one run
+		seed, _ := strconv.ParseUint(ts, 10, 64)
+		s, _ := e.runOnce(t, simrt.NewTape(seed), true)
+		for _, l := range s.Log {
+			fmt.Fprintln(os.Stderr, l)
+		}
+		fmt.Fprintf(os.Stderr, "steps=%d failures=%d counters=%v\n", s.Steps(), s.NumFailures(), s.Counters)
+		return
+	}
 	known := loadKnown(os.Getenv("VERIF_KNOWN"))
 	activeKnown = known
 	base := uint64(envInt("VERIF_SEED", 1))
